@@ -231,6 +231,27 @@ fn draw_and_compare(font: &MonoFont, s: &str, text: bool, bg: bool, ul: u8, st: 
             obs.fail("glyph-cell-colours-and-decorations", format!("{name}: {}", map_diff(m, &exp_tw)));
         }
     }
+    // targets whose bounding box is a small window: the first cell starts exactly on its last column, on its last
+    // row, or the window cuts through the first cell; inside the window the cells are as on the unbounded target
+    {
+        use embedded_graphics::primitives::Rectangle;
+        let p0 = Point::new(pos.0, pos.1);
+        let wins = [
+            Rectangle::new(p0 - Point::new(2, 1), Size::new(3, chh as u32 + 2)),
+            Rectangle::new(p0 - Point::new(1, 2), Size::new(cw as u32 + 2, 3)),
+            Rectangle::new(p0 + Point::new(cw / 2, chh / 2), Size::new(cw as u32 + 1, chh as u32 + 1)),
+        ];
+        for win in wins {
+            let mut wd = RecD::<C>::with_box(win);
+            t.draw(&mut wd).unwrap();
+            let inside = |m: &Map<C>| -> Map<C> { m.iter().filter(|(k, _)| win.contains(Point::new(k.0, k.1))).map(|(k, v)| (*k, *v)).collect() };
+            let got = inside(&wd.map);
+            obs.class_if(!got.is_empty(), "glyphs-through-a-target-window");
+            if got != inside(&exp_tw) && got != inside(&exp_adv) {
+                obs.fail("glyph-cells-inside-a-target-window", format!("window {:?}: {}", rt(&win), map_diff(&got, &inside(&exp_tw))));
+            }
+        }
+    }
 }
 
 fn check_draw(c: &DrawCase, obs: &mut Obs) {
@@ -411,7 +432,7 @@ fn main() {
         assumptions: &["mapping tables are checked for internal consistency and against the atlas geometry, not against the ISO 8859 standards", "with character spacing the decorations may span the text width or the advance width (an existing test pins the latter for transparent text)"],
         parts: |_| vec![PartSpec::new("mapping", "verif"), PartSpec::new("draw-a", "verif"), PartSpec::new("draw-b", "verif")],
         run_part,
-        required_classes: |_| vec!["mapping-per-font", "mapping-full-bmp-scan", "mapped-character", "unmapped-character", "non-bmp-character", "control-character", "decorated", "background-only", "three-characters", "line-starting-with-carriage-return", "custom-font", "character-spacing", "spacing-with-background", "one-glyph-per-row", "closure-mapping"],
+        required_classes: |_| vec!["mapping-per-font", "mapping-full-bmp-scan", "mapped-character", "unmapped-character", "non-bmp-character", "control-character", "decorated", "background-only", "three-characters", "glyphs-through-a-target-window", "line-starting-with-carriage-return", "custom-font", "character-spacing", "spacing-with-background", "one-glyph-per-row", "closure-mapping"],
         crash_is_verdict: false,
     })
 }
